@@ -886,6 +886,10 @@ class Evaluator:
                 return SymObj(recv.path + ".iter()", ("iter", recv.ty))
             if name in ("iter", "into_iter") and isinstance(recv, ListV) and getattr(self, "concrete_iters", False):
                 return IterV(recv.elems)
+            if name in ("clone", "to_owned") and type(recv) is ListV:
+                c = ListV(recv.elems)  # a clone is a distinct vector: later pushes to either must not show in the other
+                c.origin = recv.origin
+                return c
             return recv
         if name == "to_token_stream" or name == "into_token_stream":
             return Toks(self.to_toks(recv))
@@ -990,6 +994,8 @@ class Evaluator:
         if isinstance(recv, Toks) and name == "is_empty":
             if all(t[0] == "lit" for t in recv.toks):
                 return len(recv.toks) == 0
+            if any(t[0] == "lit" for t in recv.toks):
+                return False  # at least one literal token is certainly there
         if isinstance(recv, SymObj) and recv.path == "Default::default()" and name in ("is_empty", "len"):
             return True if name == "is_empty" else 0
         # a symbolic string that a match has already decided: string predicates on it are concrete
@@ -1122,6 +1128,11 @@ class Evaluator:
                 else:
                     raise Unsupported("flat_map closure result " + vkey(r))
             return IterV(out)
+        if name == "fold" and len(args) == 2:
+            acc = args[0]
+            for x in el:
+                acc = call(args[1], acc, x)
+            return acc
         raise Unsupported(f"iterator method {name} on a concrete iterator")
 
     def std_ret(self, recv, name):
